@@ -30,6 +30,15 @@ CHECKS = {
  "C11": dict(cat="fault_enumeration", ref="8.3",
    text="For seeded plans, every crash point (before each system call) and every system call x applicable fault (errno, short transfer, ENOSPC) of the real FileDisk code is executed on the simulated kernel with a durability model; reopen rounds cover every prior image length class. Within a plan the fault/crash space is enumerated completely; plans and crash survivors are sampled.",
    tech="deterministic simulation: crash-point and single-fault enumeration on a simulated kernel with durability model, reference-model oracle"),
+ "C12": dict(cat="exploration", ref="8.4",
+   text="Seeded search over valid single-client filesystem histories (generated against the reference model so that every call respects the documented preconditions) executed on the real MemFs and DirFs code, directly and through the package-level wrappers, on the simulated kernel (with few-entries getdents and high descriptor numbers as buggify) and for a tenth of the plans on the real Linux kernel; every result is compared with the model. Fault-free configuration of the filesystem simulator; sampling, not proof.",
+   tech="deterministic simulation (fault-free configuration): seeded I/O histories of three implementations vs executable reference model"),
+ "C13": dict(cat="fault_enumeration", ref="8.5",
+   text="For seeded prior states (old content, leftover temp files) every crash point between the system calls of the real DirFs.AtomicCreate and every system call x fault kind is executed on the simulated kernel in two journal modes; the destination must be old-or-exactly-new at that moment, after the crash, and exactly the data after a later fault-free call. Concurrent creators and a reader are explored under seeded schedules on DirFs and MemFs (plus the race detector). Two recorded findings (shared temp file name) are reported as KNOWN-FINDING.",
+   tech="deterministic simulation: crash-point and single-fault enumeration with a durability model + seeded schedule search for concurrent creators/readers"),
+ "C14": dict(cat="exploration", ref="8.6",
+   text="Seeded search over concurrent client operation sequences and schedules of the real MemFs/DirFs code under the deterministic scheduler; each history (event-sequence-stamped invoke/return, final read-back of every name) is checked with porcupine against the filesystem reference model, plus distinct-descriptor, no-deadlock and (in a -race build under the same kind of schedules) no-data-race oracles. Sampling, not proof.",
+   tech="deterministic simulation: seeded schedule search + porcupine linearizability vs filesystem model + race detector under controlled schedules"),
 }
 DONE = sorted(CHECKS)
 ALL = ["C%02d" % i for i in range(1, 19)]
